@@ -12,7 +12,7 @@ from .common import RecLogger, mk_market, new_order, ranks_before, tick, PRICE_H
 class OrderLaws(Harness):
     name = "OrderLaws"
     title = "strict-total-order laws of Order.__lt__/__gt__/__eq__/__le__/__ge__ on three accepted orders"
-    what_symbolic = "prices (unbounded positive ints), acceptance times (unbounded >= 0), ids (unbounded, distinct)"
+    what_symbolic = "prices (unbounded ints >= 0), acceptance times (unbounded >= 0), ids (unbounded, distinct)"
     nontrivial_event = "every path (each compares three orders pairwise)"
     bounds = {"quick": "3 orders of one side, all 8 limit/market kind patterns, both sides; numeric values unbounded",
               "thorough": "same (the numeric space is already unbounded)"}
@@ -27,7 +27,7 @@ class OrderLaws(Harness):
         os_, recs = [], []
         for i in range(3):
             mk = case["kinds"][i] == "1"
-            p = None if mk else g.int(f"p{i}", 1, None)
+            p = None if mk else g.int(f"p{i}", 0, None)
             t = g.int(f"t{i}", 0, None)
             oid = g.int(f"id{i}", 0, None)
             o = Order(agent_id=0, market_id=0, is_buy=case["is_buy"], kind=MARKET_ORDER if mk else LIMIT_ORDER,
